@@ -9,6 +9,8 @@ import (
 
 	"github.com/ipfs/go-cid"
 	"github.com/ipni/go-libipni/dagsync"
+	"github.com/libp2p/go-libp2p/core/peer"
+	"github.com/multiformats/go-multiaddr"
 	"pgregory.net/rapid"
 )
 
@@ -194,7 +196,18 @@ func RunRounds(c RoundsCase, res *RoundsResult) {
 					p.FaultCid(p.Chain[faultAt], Fault{Kind: "status", Code: 500})
 				}
 			}
-			callCid, callErr = s.S.SyncAdChain(ctx, p.Info())
+			info := p.Info()
+			if r.Arg%3 == 0 {
+				// the caller names the publisher only through the /p2p component of its addresses
+				suffix := multiaddr.StringCast("/p2p/" + p.ID.String())
+				var as []multiaddr.Multiaddr
+				for _, a := range info.Addrs {
+					as = append(as, multiaddr.Join(a, suffix))
+				}
+				info = peer.AddrInfo{Addrs: as}
+				classes["id-in-address"] = true
+			}
+			callCid, callErr = s.S.SyncAdChain(ctx, info)
 		case "resync":
 			explicit = true
 			for i := head; i >= 0; i-- {
